@@ -43,6 +43,7 @@ import (
 	"github.com/openGemini/openGemini/lib/util/lifted/influx/influxql"
 	"github.com/openGemini/openGemini/lib/util/lifted/influx/query"
 	"github.com/openGemini/openGemini/lib/util/lifted/vm/protoparser/influx"
+	"github.com/openGemini/openGemini/lib/verifhook"
 	"go.uber.org/zap"
 )
 
@@ -196,6 +197,7 @@ func (s *shard) CreateCursor(ctx context.Context, schema *executor.QuerySchema) 
 	if schema.Options().IsPromQuery() {
 		iTr = GetIntersectTimeRange(startTime, endTime, shardStartTime, shardEndTime)
 	}
+	verifhook.Point("cursor-before-clone-readers")
 	immutableReader, mutableReader, endShardTier, err := s.cloneReaders(schema.Options().OptionsName(), hasTimeFilter, tr)
 
 	if cloneMsSpan != nil {
